@@ -202,3 +202,41 @@ Lemma connect_edit_l : forall pn t p,
   bp_typed (set_conn pn t p) = bp_typed p /\ bp_nullable (set_conn pn t p) = bp_nullable p /\
   bp_ty (set_conn pn t p) = bp_ty p.
 Proof. intros pn t p. unfold set_conn. destruct (Nat.eqb (bp_name p) pn); repeat split. Qed.
+
+(* ---- clear_inputs / replace_component ---- *)
+Lemma clear_edit_l : forall defaults p,
+  p_src (resolve_param defaults (with_conn p None)) = lookup (bp_name p) defaults /\
+  bp_name (with_conn p None) = bp_name p /\ bp_lazy (with_conn p None) = bp_lazy p /\
+  bp_typed (with_conn p None) = bp_typed p /\ bp_nullable (with_conn p None) = bp_nullable p /\
+  bp_ty (with_conn p None) = bp_ty p.
+Proof. intros defaults p. repeat split. Qed.
+
+Lemma replace_edit_l : forall old p,
+  bp_conn (keep_conn old p) = match bp_conn p with Some s => Some s | None => old_conn old (bp_name p) end /\
+  bp_name (keep_conn old p) = bp_name p /\ bp_lazy (keep_conn old p) = bp_lazy p /\
+  bp_typed (keep_conn old p) = bp_typed p /\ bp_nullable (keep_conn old p) = bp_nullable p /\
+  bp_ty (keep_conn old p) = bp_ty p.
+Proof. intros old p. unfold keep_conn. destruct (bp_conn p) eqn:E; repeat split; auto. Qed.
+
+(* edits other than those on node c leave every other declaration alone *)
+Lemma edit_node_other : forall c f l n, n <> c -> lookup n (edit_node c f l) = lookup n l.
+Proof.
+  intros c f l n Hn. unfold edit_node. induction l as [|[m x] l IH]; simpl; [reflexivity|].
+  destruct (Nat.eqb m c) eqn:Em; simpl.
+  - apply Nat.eqb_eq in Em. subst m. destruct (Nat.eqb n c) eqn:E; [apply Nat.eqb_eq in E; congruence|exact IH].
+  - destruct (Nat.eqb n m); [reflexivity|exact IH].
+Qed.
+
+(* ---- every build of a builder history ---- *)
+(* However the state was reached (any edits, any number of earlier builds -- build does not change the
+   state), a wiring with a closed path is rejected and an accepted one has a rank. *)
+Lemma history_cycle_rejected_l : forall b edits,
+  let b' := fold_left apply_edit edits b in
+  (forall n, path (resolve b') n n -> build b' = None) /\
+  (forall g, build b' = Some g -> g = resolve b' /\ exists rank, ranked g rank).
+Proof.
+  intros b edits b'. split.
+  - intros n Hp. unfold build. destruct (cycle_rejected_l (resolve b')) as [_ [_ H]]. rewrite (H n Hp). reflexivity.
+  - intros g Hb. unfold build in Hb. destruct (acyclic_b (resolve b')) eqn:E; [|discriminate].
+    inversion Hb; subst. split; [reflexivity|]. destruct (acyclic_sound _ E) as [rank [Hr _]]. exists rank. exact Hr.
+Qed.
